@@ -141,6 +141,15 @@ impl<'a, I: Iterator<Item = B> + Clone, B: Borrow<Item<'a>>> DelayedFormat<I> {
             w.write_char(ones as char)
         }
 
+        /// The century can be negative or have more than two digits; only `0..=99` fits `write_two`.
+        fn write_century(w: &mut impl Write, century: i32, pad: Pad) -> fmt::Result {
+            if (0..100).contains(&century) {
+                write_two(w, century as u8, pad)
+            } else {
+                write_n(w, 2, century as i64, pad, false)
+            }
+        }
+
         #[inline]
         fn write_year(w: &mut impl Write, year: i32, pad: Pad) -> fmt::Result {
             if (1000..=9999).contains(&year) {
@@ -176,11 +185,11 @@ impl<'a, I: Iterator<Item = B> + Clone, B: Borrow<Item<'a>>> DelayedFormat<I> {
 
         match (spec, self.date, self.time) {
             (Year, Some(d), _) => write_year(w, d.year(), pad),
-            (YearDiv100, Some(d), _) => write_two(w, d.year().div_euclid(100) as u8, pad),
+            (YearDiv100, Some(d), _) => write_century(w, d.year().div_euclid(100), pad),
             (YearMod100, Some(d), _) => write_two(w, d.year().rem_euclid(100) as u8, pad),
             (IsoYear, Some(d), _) => write_year(w, d.iso_week().year(), pad),
             (IsoYearDiv100, Some(d), _) => {
-                write_two(w, d.iso_week().year().div_euclid(100) as u8, pad)
+                write_century(w, d.iso_week().year().div_euclid(100), pad)
             }
             (IsoYearMod100, Some(d), _) => {
                 write_two(w, d.iso_week().year().rem_euclid(100) as u8, pad)
